@@ -27,12 +27,11 @@
 (*         statement is an expression, U1)                                 *)
 (*   lits, lits2, taint  bookkeeping for string-literal identity (U2)      *)
 (***************************************************************************)
-EXTENDS NlValues, NlStatic, Json, IOUtils
+EXTENDS NlValues, NlStatic, NlRecs
 
-VARIABLES pid, m, sb
+VARIABLES m, sb
 
 (* The input: one record per line of the file named by the environment variable RECS. *)
-Recs == ndJsonDeserialize(IOEnv.RECS)
 
 MaxSteps == 6000
 MaxDepth == 260
